@@ -59,9 +59,12 @@ impl ElixirMapSet {
         I: IntoIterator<Item = T>,
         T: Into<OwnedTerm>,
     {
-        Self {
-            elements: iter.into_iter().map(Into::into).collect(),
-        }
+        // insert one by one: collecting sorts and then drops only structurally equal
+        // neighbours, which keeps two representations of one value (List([]) and Nil,
+        // Integer and BigInt) as separate members
+        let mut elements = BTreeSet::new();
+        elements.extend(iter.into_iter().map(Into::into));
+        Self { elements }
     }
 
     /// Inserts a value into the set.
@@ -216,9 +219,9 @@ impl From<ElixirMapSet> for OwnedTerm {
 
 impl FromIterator<OwnedTerm> for ElixirMapSet {
     fn from_iter<I: IntoIterator<Item = OwnedTerm>>(iter: I) -> Self {
-        Self {
-            elements: iter.into_iter().collect(),
-        }
+        let mut elements = BTreeSet::new();
+        elements.extend(iter);
+        Self { elements }
     }
 }
 
